@@ -40,7 +40,7 @@ def workload(rng, tier, driver):
             ses, tag = p_c07.aead_history(rng, s); c.session(ses, tag)
     take("object-histories", hist, 240 if q else 1600)
     take("permutation-state", lambda c: p_c08.gen_cases(rng, "quick", c, st()), 500 if q else 2500)
-    take("nonces-sessions", lambda c: p_c14.gen_cases(rng, "quick", c, st()), 120 if q else 200)
+    take("nonces-sessions", lambda c: p_c14.gen_cases(rng, "quick", c, st(), driver), 120 if q else 200)
 
     def masked(c):
         s = {"ops": collections.Counter(), "valid": [], "mp_steps": collections.Counter()}
